@@ -58,6 +58,7 @@ pub struct CmdRec {
     pub after: Vec<Status>,
     /// the peer's assigned piece before the command (manager view)
     pub peer_piece_before: Option<usize>,
+    pub peer_piece_after: Option<usize>,
 }
 
 pub struct World {
@@ -390,8 +391,10 @@ impl World {
                 }
             }
         }
-        let after = self.session.verif_snapshot().statuses;
-        self.cmds.push(CmdRec { t, kind, addr, piece, before, after, peer_piece_before });
+        let snap_after = self.session.verif_snapshot();
+        let peer_piece_after = snap_after.peers.iter().find(|p| p.addr == addr).and_then(|p| p.piece_index);
+        let after = snap_after.statuses;
+        self.cmds.push(CmdRec { t, kind, addr, piece, before, after, peer_piece_before, peer_piece_after });
     }
 
     /// One scheduler round: 1 ms of virtual time, handlers polled, sockets and command queue drained.
